@@ -698,6 +698,22 @@ def where(cond, x=None, y=None):
     return ndarray._from_flat([a if c else b for c, a, b in zip(ce, xe, ye)], shape, dt)
 
 
+def ndim(a):
+    if isinstance(a, (ndarray, generic)):
+        return a.ndim
+    if isinstance(a, (list, tuple)):
+        return asarray(a).ndim
+    return 0
+
+
+def shape(a):
+    return tuple(asarray(a).shape)
+
+
+def size(a):
+    return asarray(a).size
+
+
 def ravel(a, order='C'):
     return asarray(a).ravel()
 
